@@ -115,6 +115,10 @@ def derive(kind, op, x):
         return x @ svg.Matrix(*M1)
     if op == "radd":
         return "M 20,20 L 21,22" + x
+    if op == "pathadd":            # the segment is the RIGHT operand of Path + segment
+        return svg.Path("M 20,20 L 21,22") + x
+    if op == "addpath":            # segment + Path
+        return x + svg.Path("L 30,31 L 32,30")
     if op == "mulid":
         return x * [svg.Matrix(), "scale(1)", "translate(0,0)", ""][len(kind) % 4]
     if op == "add":
